@@ -24,10 +24,18 @@ func init() {
 type fakeStream struct {
 	log []string
 	ctx context.Context
+	// lazyHeaders: the server sends its headers only after it has seen the client's half-close (a
+	// legitimate server): Header() on the underlying stream blocks until then
+	lazyHeaders bool
 }
 
 func (f *fakeStream) Header() (metadata.MD, error) {
 	yield("fs.Header")
+	if f.lazyHeaders {
+		if s := vsched.S; s != nil && !s.Unwinding(s.Running()) {
+			s.Yield(func() bool { return contains(f.log, "CloseSend") }, "fs.Header waits for the server's headers")
+		}
+	}
 	f.log = append(f.log, "Header")
 	return metadata.MD{"h": {"1"}}, nil
 }
@@ -67,6 +75,8 @@ type streamScenario struct {
 	Probe    string // "", Header, Trailer, Context, CloseSend
 	// PreCancel: the caller's context has already ended when the interceptor is called
 	PreCancel bool
+	// LazyHeaders: the underlying Header() blocks until the client has half-closed
+	LazyHeaders bool
 }
 
 var errCreate = errors.New("fake: stream creation fails")
@@ -102,6 +112,10 @@ func streamScenarios() []streamScenario {
 		x.Name = fmt.Sprintf("create=true sends=%d recvs=%d pre-cancelled probe=%s", x.Sends, x.Recvs, x.Probe)
 		out = append(out, x)
 	}
+	// the server answers only after the client's half-close: a Header() call parked since before the
+	// creation must not keep the other operations from reaching the stream
+	out = append(out, streamScenario{Name: "create=true sends=3 recvs=0 lazy-headers probe=Header", CreateOK: true, Sends: 3, Probe: "Header", LazyHeaders: true},
+		streamScenario{Name: "create=true sends=3 recvs=1 lazy-headers probe=Header", CreateOK: true, Sends: 3, Recvs: 1, Probe: "Header", LazyHeaders: true})
 	return out
 }
 
@@ -155,7 +169,7 @@ func streamBody(sc streamScenario) func(s *vsched.Sched) *vsched.ExecOutcome {
 			if r.createdAt > 1 {
 				r.violate("C12.S2", "second underlying stream created after a success", fmt.Sprintf("streamer succeeded %d times", r.createdAt))
 			}
-			r.fs = &fakeStream{ctx: c}
+			r.fs = &fakeStream{ctx: c, lazyHeaders: sc.LazyHeaders}
 			return r.fs, nil
 		}
 		if sc.PreCancel {
